@@ -636,6 +636,16 @@ func genFacts() {
 	f["unknownOptionRejected"] = leanBool(strings.Contains(vc.text(nw.Body), "default: return nil, fmt.Errorf(\"unknown option: %s\", s[0])") &&
 		strings.Contains(vc.text(nw.Body), "if _, ok := seen[s[0]]; ok { return nil, fmt.Errorf(\"duplicated: %s\", s[0]) }"))
 
+	// ---- columns grammar and option unquoting (C20)
+	sp := load("sql/parse.go")
+	spt := sp.text(sp.fn("Schema").Body)
+	f["schemaGrammarStrict"] = leanBool(strings.Contains(spt, "list( parse.OneOf( parse.SeqWS( words(primaryKeyRE), parse.Exact(\"(\")") &&
+		strings.Contains(spt, "s.Columns = append(s.Columns, types.SchemaColumn{Name: col}) coltype = \"\"") &&
+		strings.Contains(spt, "words(notNullRE).Action(") && !strings.Contains(spt, "parse.Delimited(") &&
+		strings.Contains(sp.text(sp.fn("list").Body), "before := *e if !delimiter(e) { return true } if !term(e) { *e = before return true }") &&
+		sp.text(sp.fn("words").Body) == "{ return parse.SeqWS(parse.RE(re, func([]string) bool { return true })) }")
+	uq := load("internal/unquote.go")
+	f["unquoteOnlyStrings"] = leanBool(strings.Contains(uq.text(uq.fn("UnquoteAll").Body), "if _, quoted := cv.(colval.Text); !quoted { return s } res += cv.String()"))
 	// ---- shared globals (C19)
 	var globals []string
 	locked := true
